@@ -226,15 +226,20 @@ def disciplinesCouplings (ds : List Disc) : List (Nat × Nat × List String) :=
 
 /-! ### Data propagation: `MDOChain`, `MDOParallelChain`, `MDAChain` -/
 
-/-- The data of a process: a partial map from names to values. -/
-abbrev Env := String → Option Rat
+/-- The data of a process (`io.data`): an association list, the first binding of a name wins. -/
+abbrev Env := List (String × Rat)
 
-def Env.set (e : Env) (k : String) (v : Rat) : Env :=
-  fun k' => if k' = k then some v else e k'
+/-- `data[k]` (`none` = `KeyError`). -/
+def Env.val : Env → String → Option Rat
+  | [], _ => none
+  | (k', v) :: r, k => if k = k' then some v else Env.val r k
+
+/-- `data[k] = v`. -/
+def Env.put (e : Env) (k : String) (v : Rat) : Env := (k, v) :: e
 
 /-- `dict.update` with the listed keys of `src`. -/
-def Env.updateFrom (e : Env) (src : Env) (keys : List String) : Env :=
-  fun k => if keys.contains k then (match src k with | some v => some v | none => e k) else e k
+def Env.putFrom (e : Env) (src : Env) (keys : List String) : Env :=
+  keys.foldl (fun acc k => match src.val k with | some v => acc.put k v | none => acc) e
 
 /-- Something executable: it reads the data and returns the new data
     (`self.io.data.update(discipline.execute(self.io.data))` as a whole). -/
@@ -247,7 +252,7 @@ def chainEval (blocks : List Block) (e : Env) : Env :=
 /-- `MDOParallelChain._execute`: every block sees the *same* input data; afterwards the outputs
     of each block (its `outs`) are merged in order. -/
 def parEval (blocks : List (Block × List String)) (e : Env) : Env :=
-  blocks.foldl (fun acc b => acc.updateFrom (b.1 e) b.2) e
+  blocks.foldl (fun acc b => acc.putFrom (b.1 e) b.2) e
 
 /-- `MDOChain._initialize_grammars`: the inputs of a chain are the inputs of its disciplines that
     are not outputs of an earlier discipline; the outputs are all outputs. Returns
@@ -305,7 +310,7 @@ structure LinDisc where
 /-- Value of an affine output; `none` when an input is missing (`KeyError`). -/
 def LinOut.eval (o : LinOut) (e : Env) : Option Rat :=
   o.coefs.foldl (fun acc p =>
-    match acc, e p.1 with
+    match acc, e.val p.1 with
     | some s, some v => some (s + p.2 * v)
     | _, _ => none) (some o.const)
 
@@ -315,11 +320,11 @@ def LinOut.eval (o : LinOut) (e : Env) : Option Rat :=
 def LinDisc.run (d : LinDisc) : Block := fun e =>
   d.outs.foldl (fun acc o =>
     match o.eval e with
-    | some v => acc.set o.name v
+    | some v => acc.put o.name v
     | none => acc) e
 
 def LinDisc.missing (d : LinDisc) (e : Env) : Bool :=
-  d.disc.inputs.any (fun v => (e v).isNone)
+  d.disc.inputs.any (fun v => (e.val v).isNone)
 
 /-- `MDAChain._create_mdo_chain` + `_execute` with an abstract per-group solver
     (`solve group e` = data after the inner MDA of `group`), stage after stage; inside a stage
@@ -378,7 +383,7 @@ def solveGroup (ds : List LinDisc) (group : List Nat) (e : Env) : Option (List (
         (o.coefs.foldl (fun s p => if p.1 = u then s + p.2 else s) 0))
     let rhsOpt := o.coefs.foldl (fun acc p =>
       if unknowns.contains p.1 then acc
-      else match acc, e p.1 with
+      else match acc, e.val p.1 with
         | some s, some v => some (s + p.2 * v)
         | _, _ => none) (some o.const)
     rhsOpt.map (fun rhs => lhs ++ [rhs]))
@@ -391,7 +396,7 @@ def solveGroup (ds : List LinDisc) (group : List Nat) (e : Env) : Option (List (
 
 def solveGroupBlock (ds : List LinDisc) (group : List Nat) : Block := fun e =>
   match solveGroup ds group e with
-  | some kv => kv.foldl (fun acc p => acc.set p.1 p.2) e
+  | some kv => kv.foldl (fun acc p => acc.put p.1 p.2) e
   | none => e
 
 /-! ### `order_disciplines_from_default_inputs` -/
